@@ -19,7 +19,7 @@ RULE = ("source graphs (universe specs of all four classes carrying atom and bon
         "be identical before and after.  distinct = (source, derivation, edit, side) executions")
 ASSUMPTIONS = ["sharing of immutable descriptor objects is allowed; only behaviour through the public API decides",
                "an edit that raises on its target is skipped (counted)"]
-BUDGET = {"quick": 200, "thorough": 1200}
+BUDGET = {"quick": 600, "thorough": 1200}
 MG, SMG, CRG, SCRG = RG.MG, RG.SMG, RG.CRG, RG.SCRG
 
 
